@@ -28,7 +28,7 @@ var c03 = core.Register(&core.Prop{
 	Probes:           func(tier string) int { return len(c03Probes) },
 	Floors: func(c map[string]int64, tier string) []string {
 		var out []string
-		for _, k := range []string{"evaluated", "value_results", "error_results", "misuse_cases", "shape_evals", "pad_cases"} {
+		for _, k := range []string{"evaluated", "value_results", "error_results", "misuse_cases", "shape_evals", "pad_cases", "misuse_inside_larger_formulas"} {
 			if c[k] == 0 {
 				out = append(out, "coverage floor: no "+k)
 			}
@@ -89,6 +89,10 @@ type MisuseCase struct {
 	EvalCase
 	Class string `json:"class"`
 }
+
+// misuseWraps: the misuse sits somewhere inside a larger formula; its error still is the outcome (an element, argument
+// or operand that failed is not replaced by null, and nothing that follows it hides the failure).
+var misuseWraps = []string{"%s", "[(%s), 1]", "[1, (%s), 'x']", "fanys((%s), 1)", "fanys(1, (%s), 2)", "fcat((%s), 'b')", "((%s), 1)", "(%s) + 1", "1 + (%s)", "true ? (%s) : 0", "$v = (%s)", "[[(%s)], 2]", "fid([(%s), 1])", "max((%s), 1, 2)", "typeof (%s), 1"}
 
 var c03Misuse = core.Mon(c03, "misuse-is-error", func(w *core.W, c *MisuseCase) {
 	out := evaluate(c.Src, c.Data, nil)
@@ -274,8 +278,16 @@ func runC03(w *core.W) {
 			if !w.Mine(i + rep) {
 				continue
 			}
-			c := &MisuseCase{EvalCase: EvalCase{Src: t.src, Data: d, Gen: "misuse"}, Class: t.class}
+			wrap := misuseWraps[(i+rep)%len(misuseWraps)]
+			if t.class == "spread-misuse" && strings.Contains(t.src, " ...") {
+				wrap = "%s"
+			}
+			c := &MisuseCase{EvalCase: EvalCase{Src: strings.ReplaceAll(wrap, "%s", t.src), Data: d, Gen: "misuse"}, Class: t.class}
 			c03Misuse(w, c)
+			if wrap != "%s" {
+				w.Count("misuse_inside_larger_formulas")
+				c03Misuse(w, &MisuseCase{EvalCase: EvalCase{Src: t.src, Data: d, Gen: "misuse"}, Class: t.class})
+			}
 			if rep == 0 && i%9 == 0 {
 				w.Sample("misuse:"+t.class, t.src)
 			}
